@@ -5,9 +5,15 @@ from harness import core, gen, common
 
 ID = 'C15'
 LEAN_TARGETS = ['Props.C15']
-OBLIGATIONS = ['C15.translate_origin', 'C15.translate_fixes_einf', 'C15.translate_unit']
-PARTIAL = ['the decision table of classify, the four mv properties and the recovered direction / location / radius have no Lean theorem beyond the translation versor: '
-           'decided by evaluation on the implementation']
+OBLIGATIONS = ['C15.translate_origin', 'C15.translate_fixes_einf', 'C15.translate_unit',
+               'C15.direction_mv', 'C15.direction_is_classified', 'C15.direction_is_recovered', 'C15.flat_is_classified', 'C15.round_mv', 'C15.round_is_classified',
+               'C15.translation_commutes_with_inner', 'C15.translation_commutes_with_outer', 'C15.translation_fixes_scalars',
+               'C15.direction_element_invariant', 'C15.round_location_recovered',
+               'C15.coded_vector_inner_blade', 'C15.coded_blade_inner_vector', 'C15.coded_vector_wedge_blade', 'C15.coded_blade_wedge_vector', 'C15.vectors_are_directions']
+PARTIAL = ['DualFlat (duality with the pseudoscalar), the floating-point == 0 tests, grade bookkeeping / class aliases and the error branches have no Lean theorem: '
+           'decided by evaluation on the implementation',
+           'the abstract identities write v|X, X|v, v^X, X^v by the half-sum formulas; these are proved for the coded tables (coded_*), and joined to the abstract '
+           'statements on paper (no composite theorem through the model of the conformalised layout)']
 RULE = ("conformalised Cl(2), Cl(3), Cl(4); direction blades of every grade 0..n built as outer products of integer vectors with any sign and dyadic scale; dyadic locations "
         "and radii (real and imaginary); every category (Direction, Tangent, Round, Flat, DualFlat). Non-trivial = direction of grade >= 1; distinct = distinct (n, category, parameters)")
 ASSUMPTIONS = ["tolerance 1e-9 relative to the magnitude of the blade"]
